@@ -1778,7 +1778,11 @@ class Message(ABC):
         defaults = self._betterproto.default_gen
         for field_name, meta in self._betterproto.meta_by_field_name.items():
             field_is_repeated = defaults[field_name] is list
-            value = getattr(self, field_name)
+            try:
+                value = getattr(self, field_name)
+            except AttributeError:
+                # an unset oneof member
+                value = self._get_field_default(field_name)
             cased_name = casing(field_name).rstrip("_")  # type: ignore
             if meta.proto_type == TYPE_MESSAGE:
                 if isinstance(value, datetime):
@@ -1819,12 +1823,15 @@ class Message(ABC):
                 ):
                     output[cased_name] = value.to_pydict(casing, include_default_values)
             elif meta.proto_type == TYPE_MAP:
+                output_map = {**value}
                 for k in value:
                     if hasattr(value[k], "to_pydict"):
-                        value[k] = value[k].to_pydict(casing, include_default_values)
+                        output_map[k] = value[k].to_pydict(
+                            casing, include_default_values
+                        )
 
                 if value or include_default_values:
-                    output[cased_name] = value
+                    output[cased_name] = output_map
             elif (
                 value != self._get_field_default(field_name)
                 or include_default_values
